@@ -9,11 +9,7 @@ def dlit(ks, vs):
 
 
 def static_inventory(ctx):
-    os.makedirs(common.BUILD, exist_ok=True)
-    out = os.path.join(common.BUILD, "maprange")
-    p = subprocess.run(["go", "build", "-tags", "verif", "-o", out, "./cmd/maprange"], cwd=common.HARNESS, env=common.go_env(), capture_output=True, text=True)
-    if p.returncode != 0:
-        raise common.NoVerdict("maprange build failed: " + p.stderr[-2000:])
+    out = common.build_harness(ctx, "maprange")
     p = subprocess.run([out, common.REPO], capture_output=True, text=True, env=common.go_env())
     if p.returncode != 0:
         raise common.NoVerdict("maprange failed (the tree must type-check with -tags verif): " + p.stderr[-2000:])
@@ -57,6 +53,10 @@ def run(ctx):
         ("error-message", "令甲 = 【“a” = 1，“b” = 2】\n甲#“zz”\n"),
         ("compare-with-uncomparable", "如何F？\n    输出1\n令甲 = 【“a” = 1，“b” = 2，“c” = 3】\n令乙 = 【“a” = 1，“b” = 9，“c” = 8】\n（显示：甲 为 乙）\n0\n"),
     ]
+    # dictionary literals that repeat a key (the later value wins, the key keeps its first place - C12): order and value reproducible
+    for ks in (["甲", "乙", "丙", "甲"], ["a", "b", "a", "c", "b"], ["x", "x"], ["k1", "k2", "k3", "k4", "k5", "k1", "k3"]):
+        lit = "【" + "，".join("“%s” = %d" % (k, i + 1) for i, k in enumerate(ks)) + "】"
+        others.append(("literal-repeated-key", "导入《@JSON》\n令甲 = %s\n（显示：甲、甲之所有索引、甲之所有值、（生成JSON：甲））\n以键、值遍历甲：\n    （显示：键、值）\n0\n" % lit))
     for tag, src in others:
         cases.append(dict(id=len(cases), src=src, n=N * 4)); meta.append((tag, None))
     res = common.run_harness(ctx, znh, "repeat", cases, timeout=2500, args=["-t", "120"])
@@ -87,14 +87,38 @@ def run(ctx):
                 names = ["为", "不为", "==", "/=", "包含", "寻找", "包含(nested)", "为(nested)"]
                 common.report(ctx, "dicteq:wrong:" + names[bad[0]], "%s vs %s: contents-only equality is %s; %s answered %s" % (dlit(v["k1"], v["v1"]), dlit(v["k2"], v["v2"]), eq, names[bad[0]], row[bad[0]]),
                               dict(source=src, display=row))
-    cov = dict(traces_validated_against_impl=len(cases), samples=[dict(dicteq_vector=ev[77]), dict(site_table=modelled[:3])],
+    # ---- (5) values built from external data: the same HTTP request served repeatedly (site kind "collectsort")
+    ktxt, kinfo = common.tlc(ctx, "ZnMapIter", "MC_ZnMapIter_dev_sortfold.cfg", workers=2, timeout=300, allow_violation=True)
+    if not kinfo["violated"]:
+        raise common.NoVerdict("sensitivity: the deviation kind collectsortfold was NOT refuted by TLC")
+    echo = "输入当前请求\n输出【“q” = 当前请求之查询参数，“h” = 当前请求之头部】\n"
+    pools = [["a", "b", "c"], ["tag", "Tag", "TAG", "b"], ["x-id", "X-Id", "X-ID", "accept"], ["k", "K"], ["é", "É", "e"]]
+    hcases = []
+    for names in pools:
+        for k in range(2 if ctx.tier == "quick" else 6):
+            ns = names[:]; rnd.shuffle(ns)
+            target = "http://example.com/p?" + "&".join("%s=%d" % (n, i) for i, n in enumerate(ns) if n.isascii())
+            headers = [[n if n.isascii() else "X-" + str(i), "v%d" % i] for i, n in enumerate(ns)]
+            hcases.append(dict(id=len(hcases), target=target, headers=headers, src=echo, n=N * 2))
+    hres = common.run_harness(ctx, znh, "httprepeat", hcases, timeout=900)
+    for r in hres:
+        c = hcases[r["id"]]
+        if r["obs"] != "done":
+            common.report(ctx, "http:%s" % r["obs"], "httprepeat driver: %s" % r.get("detail", ""), dict(case=c)); continue
+        runs += c["n"]
+        if r["distinct"] != 1:
+            common.report(ctx, "http:nondeterministic", "the same request %s (headers %s) got %d distinct answers in %d runs: %s" % (c["target"], c["headers"], r["distinct"], c["n"], r["records"][:2]),
+                          dict(case=c, answers=r["records"][:3], counts=r["counts"]))
+    cov = dict(traces_validated_against_impl=len(cases) + len(hcases), samples=[dict(dicteq_vector=ev[77]), dict(site_table=modelled[:3])],
                evaluations=runs, distinct_nontrivial=len(cases),
                rule="(1) TLC explores every iteration order of every modelled loop kind over all maps with <=3 entries: the result must equal the canonical order's "
                     "(Confluent); the named deviations (first-failure-wins, ordered append) are refuted by TLC in the same run (sensitivity). (2) static inventory of "
                     "range-over-map statements (go/types) with a hash of each loop's text must equal the site table of the spec. (3) all %d ordered pairs of "
                     "dictionaries over <=3 keys x 2 values x all insertion orders: 为/不为/==//=/包含/寻找 (also nested) must equal contents-only equality in "
-                    "each of %d repetitions. (4) JSON parse order, object defaults, nested dictionaries, error messages: %d repetitions must be one behaviour"
-                    % (len(ev), N, N * 4),
+                    "each of %d repetitions. (4) JSON parse order, object defaults, nested dictionaries, literals repeating a key, error messages: %d repetitions must be one behaviour. "
+                    "(5) the same HTTP request (query parameters / headers whose names differ only in case, shuffled) served %d times through ZnHttpHandler: one answer; "
+                    "the site is modelled as collect-then-stable-sort, whose non-injective-key deviation TLC refutes"
+                    % (len(ev), N, N * 4, N * 2),
                sites_in_code=len(inv), sites_modelled=len(modelled), unmodelled_sites=unmodelled, stale_sites=stale, repetitions=N)
     if unmodelled or stale:
         # a witnessed violation wins; otherwise this is "no verdict": the new/changed loop must be classified first
@@ -102,5 +126,5 @@ def run(ctx):
             common.write_evidence(ctx, "model_checking", dict(cov, states=ctx.states, transitions=ctx.transitions), ["unmodelled site -> no verdict"], 0)
             raise common.NoVerdict("range-over-map sites differ from spec/ZnMapIter.tla SITES: unmodelled=%s stale=%s" % (unmodelled, stale))
     return cov, ["Go's randomised map iteration start is the only source of order nondeterminism exercised (each repetition draws fresh orders)",
-                 "request-header / import-collision determinism is exercised by the C16 / C15 families",
+                 "import-collision determinism is exercised by the C15 family",
                  "site kinds are assigned by reading each loop; a changed loop text (hash) forces re-classification"]
